@@ -94,7 +94,7 @@ Qed.
 Lemma valid_full_name_no_eol n : valid_full_name n = true -> no_eol n.
 Proof.
   unfold valid_full_name, ref_name_common, tag_name_ok. intros H.
-  apply Bool.andb_true_iff in H. destruct H as [H _]. apply Bool.andb_true_iff in H. destruct H as [H _].
+  apply Bool.andb_true_iff in H. destruct H as [H _].
   destruct n as [|f n]; [discriminate|].
   repeat match type of H with (if ?c then false else _) = true => destruct c eqn:?; [discriminate|] end.
   match goal with E : negb (name_loop _ _ _ _ _ _) = false |- _ => apply Bool.negb_false_iff in E;
